@@ -453,7 +453,27 @@ def array_eq(i, fr, st, pc, a, t, fn, r):
 
 def ord_cmp_int(i, fr, st, pc, a, t, fn, r):
     x, y = i.read_ptr(st, a[0]), i.read_ptr(st, a[1])
+    if isinstance(x, W) and isinstance(y, W) and (x.val is None or y.val is None) and not x.signed:
+        # unsigned comparison of symbolic words: the summary "order of these two one-word sequences"
+        return _ret(i, st, pc, Opaque("lexcmp", ((x,), (y,))))
     return _ret(i, st, pc, i.binop("Cmp", x, y, fr))
+
+
+def ordering_eq(i, fr, st, pc, a, t, fn, r):
+    x = i.read_ptr(st, a[0]) if isinstance(a[0], Ptr) else a[0]
+    y = i.read_ptr(st, a[1]) if isinstance(a[1], Ptr) else a[1]
+    neg = fn["name"] == "ne"
+    if isinstance(x, Agg) and isinstance(y, Agg):
+        return _ret(i, st, pc, wbool((x.variant == y.variant) != neg))
+    lex, conc = (x, y) if isinstance(x, Opaque) else (y, x)
+    if isinstance(lex, Opaque) and lex.kind == "lexcmp" and isinstance(conc, Agg):
+        pol = getattr(i, "cmp_policy", None)
+        if pol is not None and conc.variant == 0 and not neg:
+            k = len(i.cmp_log)
+            i.cmp_log.append(lex.data)
+            return _ret(i, st, pc, wbool(pol(k)))
+        return _ret(i, st, pc, wtop(1))
+    raise Undecided("Ordering comparison of %r and %r" % (x, y))
 
 
 def is_lt(i, fr, st, pc, a, t, fn, r):
@@ -918,6 +938,9 @@ TABLE = {
     "std::cmp::impls::<impl std::cmp::Ord for usize>::cmp": ord_cmp_int,
     "std::cmp::impls::<impl std::cmp::Ord for u32>::cmp": ord_cmp_int,
     "std::cmp::Ordering::is_lt": is_lt,
+    "<std::cmp::Ordering as std::cmp::PartialEq>::eq": ordering_eq,
+    "<std::cmp::Ordering as std::cmp::PartialEq>::ne": ordering_eq,
+    "std::cmp::impls::<impl std::cmp::Ord for u64>::cmp": ord_cmp_int,
     "std::cmp::PartialEq::ne": partial_ne,
     "rand::thread_rng": thread_rng,
     "<rand::prelude::ThreadRng as rand::RngCore>::next_u64": next_u64,
